@@ -155,10 +155,7 @@ def judge(run, cases, results):
             replay = script_text(setup, [s["q"]]) + "\n--- implementation\nR %s\n--- model\nM %s\n--- spec\nS %s" % (s["r"], s["m"], s["s"])
             if not spec_ok:
                 clause = (s["s"] or "FAIL no-verdict").split(" ", 1)[-1].strip()
-                if clause in ("common-ancestor-null-deref", "closest-objs-negative-depth", "distrib-cpuless-roots"):
-                    key = clause
-                else:
-                    key = "%s:%s:%s" % (clause, qk, kind)
+                key = "%s:%s:%s" % (clause, qk, kind)
                 run.violation(key, "%s fails on the answer of the C code: topology %s, query '%s', C answer '%s'" % (clause, name, s["q"], s["r"][:300]), replay)
             elif s["m"] != s["r"]:
                 if s["m"] in ("skip", "unknown"):
